@@ -439,8 +439,8 @@ def report(ctx, stage, what, case, name, cfg, sig, kind):
     # Integral: exp_int's inc_gamma recursion overflows for large non-integer orders at tiny arguments (known, shared with C03)
     key = finding_key(name, cfg, sig, kind)
     nu = case.get("params", {}).get("nu", 0)
-    if name == "Integral" and nu > 30 and abs(nu / 2 - round(nu / 2)) > 1e-5 * (1 + nu / 2) and (
-            "nan" in str(case.get("value", "")) or "nan" in str(case.get("min_eig", ""))):
+    nonfinite = any(w in str(case.get("value", "")) + str(case.get("min_eig", "")) for w in ("nan", "inf"))
+    if name == "Integral" and nu > 30 and abs(nu / 2 - round(nu / 2)) > 1e-5 * (1 + nu / 2) and nonfinite:
         key = "Integral:cor-nan:nu-large-noninteger:tiny-lag"
     ctx.violation(stage, what, case, key=key)
 
@@ -516,6 +516,9 @@ def probe_spectrum(ctx, gs, rng, thorough):
             ell = float(m.len_rescaled)
             if name in ANALYTIC or not unstable:
                 kg = kgrid if name in ANALYTIC else kgrid[(kgrid >= 1e-2) & (kgrid <= 30.0)]
+                if name not in ANALYTIC:
+                    # the Hankel noise depends on k times the LARGEST scale of the correlation (TPL: len_low + len_scale)
+                    kg = kg * ell / float(getattr(m, "len_up_rescaled", ell))
                 s = np.asarray(m.spectral_density(kg / ell), dtype=float)
                 ctx.count(("spectrum", name, cfg_tag(cfg), sig), hist=dict(stage="probe-spectrum", cls=name, dim=cfg_tag(cfg)))
                 s0 = np.nanmax(np.abs(s))          # S(0) itself may be infinite (Rational alpha = 1/2: long range)
